@@ -31,7 +31,10 @@ def monitors(prop, c):
     elif prop == "C05":
         for m in run.monitor:
             if m[0] == "C05":
-                out.append(("C05:" + m[1].replace(" ", "-")[:40], m[1]))
+                if m[1].endswith("in another swarm"):
+                    out.append(("C05:cross-swarm-dependant-ignored", m[1]))
+                else:
+                    out.append(("C05:" + m[1].replace(" ", "-")[:40], m[1]))
         marked = any(st.get("unset", "r")[0] == "f" for sts in spec["states"].values() for st in sts)
         doors = [e for evs in run.events for e in evs if e[0] == "door"]
         if not marked and np_.get("pool_filter", "reuse") in ("reuse", "block") and doors:
@@ -125,8 +128,10 @@ def overlap_monitor(c):
     run, x = c["run"], c["x"]
     out = []
     bumped = any(e[0] == "bounce" and e[3] for evs in run.events for e in evs)
-    if bumped:
-        return out
+    if bumped and c.get("timed"):
+        out.append(("C04:reentrancy-granted-without-overrun", "max_concurrent_tries was raised although no test ran longer than its test_timeout"))
+    if bumped and not c.get("timed"):
+        return out        # untimed schedules may keep a test running arbitrarily long
     points = sorted({iv[3] for iv in run.intervals})
     for t in points:
         live = [iv for iv in run.intervals if iv[3] <= t and (iv[4] is None or iv[4] > t)]
@@ -147,6 +152,67 @@ def overlap_monitor(c):
     return out
 
 
+def lazy_monitors(prop, o):
+    out = []
+    if prop in ("C01", "C05", "C08"):
+        for m in o["monitor"]:
+            if m[0] == prop:
+                out.append((f"{prop}:lazy:" + m[1].split("(")[0].strip().replace(" ", "-")[:40], m[1]))
+        if prop == "C05" and not o["marked"] and o["doors"]:
+            out.append(("C05:lazy:state-altered-while-backing-out", f"door request {o['doors'][0]} although nothing is marked for removal"))
+    if prop == "C02":
+        if o["fails"]:
+            out.append(("C02:lazy:traversal-error", f"traversal error {o['fails'][0]}"))
+        if not o["terminated"]:
+            out.append(("C02:lazy:not-terminated", f"no exit after {o['sections']} atomic sections"))
+        if o["dry"] and (o["nstarts"] or o["doors"]):
+            out.append(("C02:lazy:dry-run-not-inert", "a dry run executed a test or touched a state"))
+        if o["terminated"] and not o["fails"] and not o["dry"] and not o["never"]:
+            for name in o["flat"]:
+                res = o["leaf_results"].get(name)
+                if not res or "UNKNOWN" in res:
+                    out.append(("C02:lazy:selected-test-without-definite-result", f"{name}: results {res}"))
+                    break
+    if prop == "C03" and o["budget"]:
+        out.append(("C03:lazy:budget-exceeded", f"executions over budget: {o['budget']}"))
+    if prop == "C04" and o["overlap"]:
+        out.append(("C04:lazy:concurrent-executions", f"{o['overlap']} worker(s) above the limit inside one test at once"))
+    return out
+
+
+def lazy_part(ctx, prop, rng, seen, replay):
+    """traversals with on-demand parsing of the shipped suite: property monitors only (no model)"""
+    import concurrent.futures
+    from harness import lazyrun
+    if replay and "lazy" in replay.get("data", {}):
+        d = replay["data"]["lazy"]
+        jobs = [(d["restr"], d["nets"], d["seed"], ctx.work, d.get("extra"))]
+    elif replay:
+        return
+    else:
+        combos = [(r, n) for r in lazyrun.RESTRS for n in lazyrun.NETS]
+        rng.shuffle(combos)
+        k = 40 if ctx.thorough else 6
+        jobs = [(r, n, rng.randrange(10 ** 6), ctx.work, {"dry_run": "yes"} if (prop == "C02" and i == 0) else
+                 ({"max_tries": "2"} if prop in ("C03", "C04") and i % 2 == 0 else None)) for i, (r, n) in enumerate(combos[:k])]
+    with concurrent.futures.ProcessPoolExecutor(max_workers=12) as ex:
+        outs = list(ex.map(lazyrun.lazy_job, jobs))
+    hits = 0
+    for o in outs:
+        for sig, text in lazy_monitors(prop, o):
+            hits += 1
+            if sig in seen:
+                continue
+            seen.add(sig)
+            ctx.fail(sig, f"{prop} (lazy parsing): {text}",
+                     {"lazy": {"restr": o["restr"], "nets": o["nets"], "seed": o["seed"], "extra": o["extra"]}, "violation": text,
+                      "pools": o["pools"], "monitor": o["monitor"]}, True)
+    ctx.obligation(f"monitor:{prop}:lazy-runs", "monitor", True, f"{hits} monitor hits in {len(outs)} lazy traversals of the shipped suite")
+    ctx.coverage["lazy_runs"] = [{"restr": o["restr"], "nets": o["nets"], "sections": o["sections"], "executions": o["nstarts"],
+                                  "expanded_workers": o["expanded_workers"], "pools": o["pools"], "mode": o["mode"]} for o in outs]
+    ctx.count(len(outs), sum(1 for o in outs if len(o["expanded_workers"]) > 1))
+
+
 def run_property(ctx, prop, replay=None):
     import random
     rng = random.Random(ctx.seed * 1000 + SEED_SHIFT[prop])
@@ -156,7 +222,7 @@ def run_property(ctx, prop, replay=None):
         d = replay["data"]
         fixed = (d["spec"], d["initial_pools"], d["schedule"])
     n = 0 if fixed else (1200 if ctx.thorough else 110)
-    cases = travgen.run_batch(ctx, n, FLAVOURS[prop], prop.lower(), fixed=fixed)
+    cases = travgen.run_batch(ctx, n, FLAVOURS[prop], prop.lower(), fixed=fixed, timed_share={"C04": 0.7, "C02": 0.3}.get(prop, 0.15))
     bad = [c for c in cases if not c["agrees"]]
     ctx.obligation("correspondence:traversal-traces", "correspondence", not bad,
                    f"{len(bad)} of {len(cases)} traversals differ from Model/TraverseRun.v in some atomic section")
@@ -179,6 +245,7 @@ def run_property(ctx, prop, replay=None):
             d["violation"] = text
             ctx.fail(sig, f"{prop}: {text}", d, True)
     ctx.obligation(f"monitor:{prop}", "monitor", True, f"{hits} monitor hits in {len(cases)} traversals (see violations / known findings)")
+    lazy_part(ctx, prop, rng, seen, replay)
     sections = sum(len(c["run"].sections) for c in cases)
     contended = sum(1 for c in cases if any(e[0] == "bounce" for evs in c["run"].events for e in evs))
     ctx.count(len(cases), contended)
